@@ -167,8 +167,17 @@ func registryConcCmd(args []string) error {
 				r := rand.New(rand.NewSource(int64(seed*1000 + i)))
 				for j := 0; j < iters; j++ {
 					nm, m := names[r.Intn(len(names))], r.Intn(2) == 1
-					f, e := of.FindFieldHeaderByName(applyCase(nm, []string{"upper", "lower", "mixed"}[r.Intn(3)]), m)
-					if (e == nil) != ok[key{nm, m}] {
+					// a lookup that panics where the sequential one returned differs from it (a panic in a goroutine would end the process)
+					f, e, panicked := func(name string) (f *of.MatchField, e error, p bool) {
+						defer func() {
+							if recover() != nil {
+								p = true
+							}
+						}()
+						f, e = of.FindFieldHeaderByName(name, m)
+						return
+					}(applyCase(nm, []string{"upper", "lower", "mixed"}[r.Intn(3)]))
+					if panicked || (e == nil) != ok[key{nm, m}] {
 						atomic.AddInt64(&mism, 1)
 						continue
 					}
